@@ -145,4 +145,4 @@ _add("C18",
 
 NOT_APPLICABLE = []
 
-HOOK_COMMITS = ['f4e11fff6207578681bfe159fde132435a75db6b', 'c80cd8e781736d9cf047ae63c4117d911e79b492', '36e923c803e32367e0b9567db19ed45c7e679e57', 'd4d0caac768fbc161be45a56b818f54b8f8544b7', '18ace6ea4c44e4f9b55cbb2adc1f6155c1036680']
+HOOK_COMMITS = ['f4e11fff6207578681bfe159fde132435a75db6b', 'c80cd8e781736d9cf047ae63c4117d911e79b492', '36e923c803e32367e0b9567db19ed45c7e679e57', 'd4d0caac768fbc161be45a56b818f54b8f8544b7', '18ace6ea4c44e4f9b55cbb2adc1f6155c1036680', '4ff155a294cff9a421227818a4b4143e0cca6a84']
